@@ -9,6 +9,7 @@ suggestion / decision — that checker is what yields `property` violations."""
 import contextlib
 import datetime
 import io
+import os
 import logging
 import re
 import traceback
@@ -431,8 +432,9 @@ def exc_class(e):
     return 0 if isinstance(e, KeyError) else 1 if isinstance(e, AssertionError) else 2 if isinstance(e, IndexError) else 3
 
 
-def run_spec(spec):
-    """returns dict(term=Coq case, events=[...] (JSON), checker=Checker, stats=dict)"""
+def run_spec(spec, strict=False, max_trials=None):
+    """returns dict(term=Coq case, events=[...] (JSON), checker=Checker, stats=dict).
+    strict: return the string "invalid" as soon as an op does not apply (used by the exhaustive stream)."""
     from syne_tune.optimizer.schedulers import hyperband as hb
     from syne_tune.optimizer.schedulers.hyperband_pasha import PASHARungSystem
     from syne_tune.backend.trial_status import Trial
@@ -572,6 +574,8 @@ def run_spec(spec):
         if kind == "S":
             free = [i for i, sl in enumerate(slots) if sl is None]
             if not free:
+                if strict:
+                    return "invalid"
                 continue
             br = op[1] % nb
             dist.b = br
@@ -598,6 +602,8 @@ def run_spec(spec):
                 continue
             mra_val = sug.config.get("epochs") if (sug.config is not None and spec["mra"]) else None
             if sug.spawn_new_trial_id:
+                if strict and max_trials is not None and next_id >= max_trials:
+                    return "invalid"
                 tid = next_id
                 next_id += 1
                 trials[tid] = Trial(trial_id=tid, config=sug.config, creation_time=t0)
@@ -632,13 +638,20 @@ def run_spec(spec):
                 slots[free[0]] = dict(tid=tid, ptr=start, target=target, resume_from=rf, scratch=not spec["checkpointing"])
                 if paused_last is not None and paused_last[0] == tid:
                     paused_last = None
-        elif kind in ("R", "J", "B"):
+        elif kind in ("R", "J", "B", "T"):
             i = op[1] % nw
             sl = slots[i]
             if sl is None:
+                if strict:
+                    return "invalid"
                 continue
             if kind == "R":
                 resource, metric, cost = sl["ptr"] + 1, op[2], op[3]
+            elif kind == "T":
+                # metric from the spec's table: row = trial id, column = level
+                row = spec["table"][sl["tid"] % len(spec["table"])]
+                resource = sl["ptr"] + 1
+                metric, cost = float(row[(resource - 1) % len(row)]), 1.0
             elif kind == "J":
                 resource, metric, cost = sl["ptr"] + op[2], op[3], op[4]
             else:
@@ -727,6 +740,44 @@ def run_spec(spec):
                 stats=stats, config=dict(levels=levels, quantiles=[pq for _, pq in rungs], num_brackets=nb))
 
 
+EXH_TABLES = [
+    [[1, 1, 1], [2, 2, 2], [3, 3, 3]],   # stable ranking
+    [[3, 1, 2], [1, 3, 3], [2, 2, 1]],   # ranking changes between levels
+    [[1, 1, 1], [1, 1, 1], [2, 2, 2]],   # ties
+]
+
+
+def exhaustive_specs(ctx, depth, cap):
+    """thorough tier: ALL interleavings (DFS over op sequences; only sequences in which every op applies)
+    of <= 3 trials on <= 3 workers over rung levels [1, 2, 3] (max_t 4) for plain promotion: ops = suggest,
+    or the next consecutive report of the trial in worker slot k. Leaves (depth reached / nothing applies)
+    are the cases."""
+    alphabet = [["S", 0], ["T", 0], ["T", 1], ["T", 2]]
+    out = []
+    sink = io.StringIO()
+    for ti, table in enumerate(EXH_TABLES):
+        for mode, ckpt in (("min", True), ("max", False)):
+            base = dict(type="promotion", mode=mode, rung_levels=[1, 2, 3], grace=1, rf=3, max_t=4, brackets=1,
+                        per_bracket=False, mra=True, cost_attr=False, nthr=0, checkpointing=ckpt, n_workers=3,
+                        tiny_space=False, style="table%d" % ti, table=table)
+
+            def valid(ops):
+                with contextlib.redirect_stdout(sink), contextlib.redirect_stderr(sink):
+                    r = run_spec(dict(base, ops=ops), strict=True, max_trials=3)
+                return r != "invalid" and r is not None
+
+            stack = [[]]
+            while stack and len(out) < cap:
+                ops = stack.pop()
+                kids = [ops + [a] for a in alphabet if valid(ops + [a])] if len(ops) < depth else []
+                if not kids:
+                    if ops:
+                        out.append(dict(base, ops=ops, exhaustive=True))
+                else:
+                    stack.extend(kids)
+    return out
+
+
 def run(ctx, replay=None):
     logging.getLogger("syne_tune").setLevel(logging.CRITICAL)
     logging.disable(logging.CRITICAL)
@@ -743,6 +794,11 @@ def run(ctx, replay=None):
     else:
         n = ctx.n(260, 5000)
         specs = [gen_spec(rng, force_type=TYPES[i % 4] if i < n // 2 else None) for i in range(n)]
+        if ctx.tier == "thorough":
+            exh = exhaustive_specs(ctx, depth=int(os.environ.get("VERIF_C04_EXH_DEPTH", "9")), cap=30000)
+            ctx.notes.append("bounded-exhaustive stream (plain promotion, <=3 trials, 3 workers, rung levels [1,2,3], "
+                             "3 metric tables x {min+checkpointing, max+scratch}): %d maximal interleavings" % len(exh))
+            specs += exh
     terms, meta = [], []
     boundary_total = 0
     sink = io.StringIO()
@@ -756,6 +812,7 @@ def run(ctx, replay=None):
         nontriv = st["resumes"] >= 1 and st["max_rung_at_resume"] >= 3 and st["starts_with_paused"] >= 1
         ctx.count(("c04", spec), nontrivial=nontriv)
         ctx.h("type", spec["type"])
+        ctx.h("stream", "exhaustive" if spec.get("exhaustive") else "random")
         ctx.h("brackets", "%d%s" % (spec["brackets"], "/per_bracket" if spec["per_bracket"] else ""))
         ctx.h("mra/checkpointing", "%s/%s" % (spec["mra"], spec["checkpointing"]))
         for k in ("resumes", "starts", "starts_with_paused", "pauses", "stops", "late", "errors", "nosugg", "ignored", "oracle_errors"):
